@@ -63,7 +63,7 @@ def verify_fork_summary(ctx, prog, rule):
                                "children": {str(k): v for k, v in st.res.items() if k[0] == "pid"}}, nontrivial=True)
         classes.add(c)
     need = {"fail-before-fork", "child", "parent-ok", "parent-child-failed-and-reaped"}
-    if not need <= classes:
+    if not need <= classes and None not in classes:
         raise AnalysisBroken("process_fork summary: outcome classes %s never produced" % sorted(need - classes))
     return res
 
@@ -199,7 +199,7 @@ def o_parse_options(I, fn, n, args, st):
             if stream == "in" and data == "set":
                 return [(frozenset({T("REPROC_REDIRECT_PIPE")}), None, None)]
             base = list(plain) + ([T("REPROC_REDIRECT_STDOUT")] if stream == "err" else [])
-            return [(frozenset(base), None, None),
+            return [(fs(b), None, None) for b in base] + [
                     (fs(T("REPROC_REDIRECT_HANDLE")), "handle", fs(("uh", stream))),
                     (fs(T("REPROC_REDIRECT_FILE")), "file", fs("PTR")),
                     (fs(T("REPROC_REDIRECT_PATH")), "path", fs("PTR"))]
@@ -256,3 +256,17 @@ def analyse_reproc_start(ctx, prog):
     ctx.stats("E-ABS", I.stats)
     _rs_cache[key] = (res, F, I, obj)
     return _rs_cache[key]
+
+
+# ------------------------------------------------------------------ reproc_poll helpers (pure)
+
+def o_top_int(I, fn, n, args, st):
+    return [(st, I.TOP_INT)]
+
+
+def o_nonneg(I, fn, n, args, st):
+    return [(st, I.nonneg())]
+
+
+POLL_HELPERS = {"expiry": o_top_int, "find_earliest_deadline": o_nonneg, "contains_valid_pipe": o_bool,
+                "pipe_poll": o_top_int, "pipe_shutdown": o_top_int, "now": o_top_int}
